@@ -27,7 +27,9 @@ func TestCheck(t *testing.T) {
 		"QR x opcode x section counts {0,1,2,65535} (header-only and with consistent content), structural oddities; " +
 		"(3) queries whose handling takes 30 ms, written in bursts of 1..5 on TCP/DoT connections that the client " +
 		"half-closes right behind them; (4) uniquely named queries sent by 32 parallel clients per path to a second " +
-		"set of servers whose responses are built from, and disposed of into, the pools of a production dnsmsg.Cloner. " +
+		"set of servers whose responses are built from, and disposed of into, the pools of a production dnsmsg.Cloner; " +
+		"(5) servers with pipeline limit 1 and 2 and a request-context timeout: connection A holds that many queries " +
+		"inside the handler (a gate the harness controls) while fresh connections B and C send ordinary queries. " +
 		"Every input is sent over every client path and the observation is compared with the treatment computed from " +
 		"the bytes alone (reference = the handler invoked directly through NonWriterResponseWriter). " +
 		"A case is non-trivial when it was actually sent and an observation was judged; its class is " +
@@ -66,8 +68,8 @@ func TestCheck(t *testing.T) {
 		r:           r,
 		b:           b,
 		http:        map[tbench.HTTPVariant]*tbench.HTTPClient{},
-		answerWait:  15 * time.Second,
-		udpWait:     5 * time.Second,
+		answerWait:  10 * time.Second,
+		udpWait:     4 * time.Second,
 		silenceWait: 200 * time.Millisecond,
 		salt:        uint16(r.Seed * 7919),
 		canons:      map[int]map[string]canon{},
@@ -177,6 +179,11 @@ func TestCheck(t *testing.T) {
 		return
 	}
 
+	// Phase 6: the pipeline limit is per connection.
+	if !e.pipePhase() {
+		return
+	}
+
 	// Observations of the servers themselves.
 	snap := metrics.Snapshot()
 	r.Extra("server_metrics", snap)
@@ -218,6 +225,7 @@ func TestCheck(t *testing.T) {
 	r.Require("class:counts", int64(r.N(150, 700)))
 	r.Require("class:accept/handler-silent", int64(r.N(20, 200)))
 	r.Require("class:accept/handler-error", int64(r.N(40, 400)))
+	r.Require("class:accept/handler-write-error", int64(r.N(60, 600)))
 	r.Require("cross_transport_comparisons", int64(r.N(3000, 30000)))
 	r.Require("handler_invocations", int64(r.N(4000, 40000)))
 	r.Require("http_proto:doh-h2-post:HTTP/2.0", int64(r.N(150, 1500)))
